@@ -21,7 +21,7 @@ def norm_text(s):
     return re.sub(r'\s+', ' ', str(s)).strip()
 
 
-UNREC_RX = re.compile(r'not found|not recognised|unrecognised|piece missing|missing intermediate|no such expression|not evaluable|not of the form|unexpected shape|were not both found|not understood|no assignment to|does not assign|no store into|loop not found|not a single|cannot be located|no unconditional|= \?$|= None$', re.I)
+UNREC_RX = re.compile(r'not found|not recognised|unrecognised|piece missing|missing intermediate|no such expression|not evaluable|not of the form|unexpected shape|were not both found|not understood|no assignment to|does not assign|no store into|loop not found|not a single|cannot be located|= \?$|= None$', re.I)
 
 
 class Obligation:
